@@ -105,7 +105,8 @@ class TlcResult:
 def tlc(spec_dir, module, cfg, workers=None, dump=None, dump_dot=None, simulate=None, depth=None,
         timeout=1200, xmx="8g", extra=(), env=None, metadir=None, coverage=False, cont=False, deadlock=None):
     md = metadir or scratch("tlc-" + module)
-    cmd = ["java", "-Xmx" + xmx, "-XX:+UseParallelGC", "-cp", TLA_CP, "tlc2.TLC",
+    libs = os.pathsep.join(os.path.join(ROOT, "spec", d) for d in sorted(os.listdir(os.path.join(ROOT, "spec"))))
+    cmd = ["java", "-Xmx" + xmx, "-XX:+UseParallelGC", "-DTLA-Library=" + libs, "-cp", TLA_CP, "tlc2.TLC",
            "-workers", str(workers or NCPU), "-metadir", md, "-config", cfg, "-noGenerateSpecTE"]
     if dump:
         cmd += ["-dump", dump]
